@@ -7,9 +7,6 @@ open Yaclib.FiberSync
 structure Inv (s : State) : Prop where
   /-- a fiber whose thread function has returned never runs again -/
   fin_done : ∀ k, s.fin k = true → s.pc k = .done
-  /-- what a fiber assigned to `q` through `q = p` is not necessarily what it reads back (D14); what it assigned
-      through `p = ptr` is: its own slot -/
-  ghost_ok : True
 
 theorem inv_init (n : Nat) : Inv (init n) := by
   constructor <;> simp [init]
